@@ -517,6 +517,38 @@ def h_sprops_w(flags: int, solidity: int, skin: int, dxmin: int, dxmax: int, cpu
 
 
 
+def _run_names(tail, k, nt, lump):
+    """Model-name dictionary entries are fixed char[128] slots: a name of k + nt characters either comes back whole or is rejected."""
+    import srctools.bsp as bm
+    from srctools.math import Angle
+    assume(len(tail) == nt)
+    for ch in tail:
+        assume(ch == 'a' or ch == 'b')          # struct's 's' code realises the bytes: two letters (enumeration)
+    name = 'm' * k + tail
+    b = new_bsp("v21", 9)
+    if lump == "sprp":
+        b.static_prop_version = bm.StaticPropVersion.V9
+        b.visleafs = [_leaf(bm, 0)]
+        b.props = [bm.StaticProp(name, _vec(1.0, 2.0, 3.0))]
+    else:
+        b.detail_props = [bm.DetailPropModel(_vec(1.0, 2.0, 3.5), Angle(0.0, 45.0, 0.0), bm.DetailPropOrientation.NORMAL, 1, (1, 2, 3, 4), (0, 0), 0, name)]
+    if not saved_or_rejected(b):
+        return False
+    b2 = transfer(b, "v21", 9)
+    got = b2.props[0].model if lump == "sprp" else b2.detail_props[0].model
+    check(got == name, "model name silently changed", len(name), len(got))
+    return True
+
+
+def h_names(tail: str, k: int, nt: int, lump: str) -> None:
+    _run_names(tail, k, nt, lump)
+
+
+def h_names_w(tail: str, k: int, nt: int, lump: str) -> None:
+    if _run_names(tail, k, nt, lump):
+        raise Fail("reached")
+
+
 # ------------------------------------------------------------------------------------------------ texture names
 
 def _run_textures(t0, t1, t2, n0, n1, n2, n):
@@ -961,9 +993,9 @@ def obligations(tier):
         "symbolic bytes, exact length n per slice")
     wit("rle", "h_rle_w", [{"n": 2}])
     if not quick:
-        add("rle_long", "h_rle_long", [{"na": 1, "nb": 1, "zi": zi} for zi in range(7)] + [{"na": 0, "nb": 0, "zi": zi} for zi in range(7)],
-            "zero runs of 254..765 bytes (the >255 splitting) between two symbolic bytes", "run length by concrete slice (enumeration)",
-            budget=1800, pp=400)
+        add("rle_long", "h_rle_long", [{"na": 1, "nb": 1, "zi": zi} for zi in (1, 2, 5)] + [{"na": 0, "nb": 0, "zi": zi} for zi in range(7)],
+            "zero runs of 254..765 bytes (the >255 splitting), for 255/256/511 between two symbolic bytes", "run length by concrete slice (enumeration)",
+            budget=1200, pp=400)
     add("find_insert", "h_find_insert", [{"nl": nl, "nq": nq, "keyed": kd} for nl in range(0, 4) for nq in (1, 2) for kd in (False, True)],
         "find_or_insert: index addresses the item, earlier entries never move, no duplicate appended", "pool of 3 objects, list <= 3, 2 queries")
     add("find_extend", "h_find_extend", [{"nl": nl, "nq": nq, "nr": nr} for nl in range(0, 4) for nq in (range(0, 3) if quick else range(0, 4))
@@ -1023,6 +1055,10 @@ def obligations(tier):
         "static props in every format version: ALL flag values (symbolic 64-bit word), solidity, skin, DX/CPU/GPU levels, renderfx, lightmap "
         "size, xbox flag, model table sharing, leaf table; version auto-detection; fields the version has no slot for are not compared",
         "<= 2 props; prop 0 fully symbolic")
+    add("names", "h_names", [{"k": k, "nt": nt, "lump": lp} for lp in ("sprp", "dprp") for k, nt in ((0, 1), (125, 2), (126, 2), (127, 2), (200, 1))],
+        "model names in the static/detail prop dictionaries (char[128] slots): exact round trip or rejection around the 128 limit",
+        "name = 'm'*k + 1..2 symbolic letters over {a, b}")
+    wit("names", "h_names_w", [{"k": 0, "nt": 1, "lump": "sprp"}, {"k": 0, "nt": 1, "lump": "dprp"}])
     wit("sprops", "h_sprops_w", [{"n": 1, "version": "V10"}, {"n": 1, "version": "V_LIGHTMAP_v10"}, {"n": 1, "version": "V5"}])
     return obls
 
@@ -1034,7 +1070,7 @@ META["bounds"] = ("lists of length 0..2 (3 for index lists / find_or_extend), ev
 META["outside"] = ("floats as symbols (concrete float32-exact constants only); lists longer than the bounds; LZMA-compressed lumps and the file header / "
                    "lump table (C10); pakfile; NOT REACHED in this round: faces / orig_faces / hdr_faces / surfedges+edges, bmodels + physics, water "
                    "leaf info, entity lump (a harness h_ents exists but does not exhaust: 15 paths in 200 s) - these pairs are not claimed; model "
-                   "names > 128 bytes in the prop dictionaries (struct '128s' truncates silently: seen by reading, no obligation yet); version-absent "
+                   "version-absent "
                    "StaticProp fields (documented per version) are not compared")
 META["stubs"] = [
     "srctools.bsp.AtomicWriter -> object whose __enter__ raises: BSP.save() runs its real rebuild loop and stops before file output",
